@@ -512,6 +512,10 @@ func (c *Conn) Parse(data []byte) (retErr error) {
 						message = c.message
 						c.message = nil
 						if c.compress {
+							if message == nil {
+								// a compressed message without payload bytes.
+								message = allocator.Malloc(0)
+							}
 							var pb *[]byte
 							var rc io.ReadCloser
 							if c.WebsocketDecompressor != nil {
@@ -1197,6 +1201,9 @@ func (c *Conn) readAll(r io.Reader, size int) (*[]byte, error) {
 			al := l
 			if al > maxAppendSize {
 				al = maxAppendSize
+			}
+			if al == 0 {
+				al = 512
 			}
 			// extend to the limit size at most.
 			if (c.MessageLengthLimit > 0) && (l+al > c.MessageLengthLimit) {
